@@ -26,6 +26,7 @@ func ruleCastBoundary(c *Ctx) []Obligation {
 	out = append(out, actxCastTermination(c)...)
 	out = append(out, actxCastVMCatchable(c)...)
 	out = append(out, actxCastSupersedes(c)...)
+	out = append(out, actxCastExprAlways(c)...)
 	return out
 }
 
@@ -1246,4 +1247,226 @@ func actxCastOwners(fn *ssa.Function, subject ssa.Value, pkgFns []*ssa.Function,
 	}
 	sort.Slice(owners, func(i, j int) bool { return owners[i].String() < owners[j].String() })
 	return owners
+}
+
+// (h) ------------------------------------------------------------------------
+
+// actxCastExprAlways: wherever an engine gets hold of an analysed cast
+// expression (`expr as T`: a value of type AnalyzedCastExpression, obtained by
+// a type assertion in a dispatcher or received as a parameter), every normal
+// path from there to the end of the function performs the cast against the
+// node's AsType: the compiler emits a CastInstruction built from it, the
+// interpreter calls DeepCast with it (directly or in a helper of the package
+// that always does). Whether a cast can be skipped is not for the engine to
+// decide from the shape of the static types: `?any as ?T`, `[any] as [T]`, an
+// any-object accessor — same Kind() on both sides, yet the dynamic value must
+// be validated. The only skip a path may take is one decided by the analyzer,
+// i.e. a branch on a boolean field of the node itself.
+func actxCastExprAlways(c *Ctx) []Obligation {
+	var out []Obligation
+	var castT types.Type
+	if t := c.SSAPkg("homescript/compiler").Type("CastInstruction"); t != nil {
+		castT = t.Type()
+	}
+	deep := map[*ssa.Function]bool{}
+	for _, rel := range []string{"homescript/runtime/value", "homescript/interpreter/value"} {
+		if f := c.SSAPkg(rel).Func("DeepCast"); f != nil {
+			deep[f] = true
+		}
+	}
+	isCastNode := func(t types.Type) bool {
+		n, ok := t.(*types.Named)
+		return ok && n.Obj().Name() == "AnalyzedCastExpression" && n.Obj().Pkg() != nil && strings.HasSuffix(n.Obj().Pkg().Path(), "/analyzer/ast")
+	}
+	n := 0
+	for _, rel := range []string{"homescript/compiler", "homescript/interpreter"} {
+		fns := actxAllFuncs(c.SSAPkg(rel))
+		sort.Slice(fns, func(i, j int) bool { return fns[i].String() < fns[j].String() })
+		for _, fn := range fns {
+			type occ struct {
+				v    ssa.Value
+				from ssa.Instruction // nil: function entry
+			}
+			var occs []occ
+			for _, p := range fn.Params {
+				if isCastNode(p.Type()) {
+					occs = append(occs, occ{v: p})
+				}
+			}
+			for _, b := range fn.Blocks {
+				for _, ins := range b.Instrs {
+					if ta, ok := ins.(*ssa.TypeAssert); ok && !ta.CommaOk && isCastNode(ta.AssertedType) {
+						occs = append(occs, occ{v: ta, from: ta})
+					}
+				}
+			}
+			if len(occs) == 0 {
+				continue
+			}
+			name := fn.Name()
+			if fn.Signature.Recv() != nil {
+				name = recvTypeNameOfSSA(fn) + "." + name
+			}
+			for i, o := range occs {
+				n++
+				key := fmt.Sprintf("%s.%s|cast expression|the cast is performed on every path", rel, name)
+				if len(occs) > 1 {
+					key = fmt.Sprintf("%s.%s|cast expression #%d|the cast is performed on every path", rel, name, i+1)
+				}
+				pos := fn.Pos()
+				if o.from != nil {
+					pos = o.from.Pos()
+				}
+				ob := Obligation{Key: key, Pos: c.Pos(pos), Nontrivial: true}
+				ev := &actxKindEval{c: c}
+				ef := ev.newFrame(actxNewFrame(fn, nil, 0), map[*ssa.Parameter]actxAbs{})
+				root := ef.fr.sym(o.v)
+				if actxUnknownSym(root) {
+					ob.Status, ob.Detail = Undecided, "the cast node cannot be traced to a parameter of the function"
+					out = append(out, ob)
+					continue
+				}
+				want := root + ".AsType"
+				hit := func(f *actxEvalFrame, ins ssa.Instruction) bool {
+					switch x := ins.(type) {
+					case *ssa.MakeInterface:
+						if castT == nil || !types.Identical(x.X.Type(), castT) {
+							return false
+						}
+						if call, ok := x.X.(*ssa.Call); ok {
+							for _, a := range call.Call.Args {
+								if f.fr.sym(a) == want {
+									return true
+								}
+							}
+						}
+						if u, ok := x.X.(*ssa.UnOp); ok {
+							if al, isAl := u.X.(*ssa.Alloc); isAl {
+								for fi := 0; fi < castT.Underlying().(*types.Struct).NumFields(); fi++ {
+									for _, v := range f.fieldStores(al, fi) {
+										if f.fr.sym(v) == want {
+											return true
+										}
+									}
+								}
+							}
+						}
+					case ssa.CallInstruction:
+						cc := x.Common()
+						if g := cc.StaticCallee(); g != nil && deep[g] && len(cc.Args) >= 2 && f.fr.sym(cc.Args[1]) == want {
+							return true
+						}
+					}
+					return false
+				}
+				// blocks reachable from the occurrence
+				var start *ssa.BasicBlock
+				startIdx := 0
+				if o.from != nil {
+					start, startIdx = o.from.Block(), actxInstrIndex(o.from)+1
+				} else {
+					start = fn.Blocks[0]
+				}
+				reach := actxReach(start)
+				hitBlock := map[*ssa.BasicBlock]bool{}
+				stack := map[*ssa.Function]bool{fn: true}
+				var order []*ssa.BasicBlock
+				for _, b := range fn.Blocks {
+					if reach[b] {
+						order = append(order, b)
+					}
+				}
+				for _, b := range order {
+					for idx, ins := range b.Instrs {
+						if b == start && idx < startIdx {
+							continue
+						}
+						if hit(ef, ins) {
+							hitBlock[b] = true
+							break
+						}
+						call, ok := ins.(*ssa.Call)
+						if !ok {
+							continue
+						}
+						g := call.Call.StaticCallee()
+						if g == nil || g.Pkg != fn.Pkg || stack[g] || g.Blocks == nil {
+							continue
+						}
+						// only helpers that are handed (part of) the node
+						gets := false
+						for _, a := range call.Call.Args {
+							if sa := ef.fr.sym(a); sa == root || strings.HasPrefix(sa, root+".") {
+								gets = true
+							}
+						}
+						if !gets {
+							continue
+						}
+						if sub := ef.enter(&call.Call); sub != nil {
+							stack[g] = true
+							okSub := sub.mustPass(hit, stack)
+							delete(stack, g)
+							if okSub {
+								hitBlock[b] = true
+								break
+							}
+						}
+					}
+				}
+				// a path to a normal return that avoids every hit; a branch on a boolean field of the node is the analyzer's decision
+				var witness *ssa.Return
+				var skipCond string
+				seen := map[*ssa.BasicBlock]bool{}
+				work := []*ssa.BasicBlock{start}
+				for len(work) > 0 && witness == nil {
+					b := work[len(work)-1]
+					work = work[:len(work)-1]
+					if seen[b] || hitBlock[b] {
+						continue
+					}
+					seen[b] = true
+					if len(b.Instrs) == 0 {
+						continue
+					}
+					switch t := b.Instrs[len(b.Instrs)-1].(type) {
+					case *ssa.Return:
+						if !actxErrorReturn(t) {
+							witness = t
+						}
+					case *ssa.If:
+						cs := ef.fr.sym(t.Cond)
+						if u, ok := t.Cond.(*ssa.UnOp); ok && u.Op == token.NOT {
+							cs = ef.fr.sym(u.X)
+						}
+						if strings.HasPrefix(cs, root+".") && !strings.Contains(cs[len(root)+1:], ".") && !strings.Contains(cs, "(") {
+							if bt, ok := t.Cond.Type().Underlying().(*types.Basic); ok && bt.Kind() == types.Bool {
+								skipCond = cs
+								continue // both sides are the analyzer's decision
+							}
+						}
+						work = append(work, b.Succs...)
+					default:
+						work = append(work, b.Succs...)
+					}
+				}
+				switch {
+				case len(hitBlock) == 0:
+					ob.Status, ob.Detail = Violated, "the cast against the node's AsType is never performed (no CastInstruction built from it is emitted, DeepCast is not called with it)"
+				case witness != nil:
+					ob.Status, ob.Detail = Violated, "a path from the cast node to the return at "+c.Pos(actxInstrPos(witness))+" performs no cast against AsType: the skip is decided by the engine (static type kinds or other conditions), not by the analyzer; a same-kind cast such as `?any as ?T` or `[any] as [T]` then lets an unvalidated value through"
+				default:
+					ob.Status, ob.Detail = Discharged, "every normal path performs the cast against AsType"
+					if skipCond != "" {
+						ob.Detail += " (except under the analyzer-decided flag " + skipCond + ")"
+					}
+				}
+				out = append(out, ob)
+			}
+		}
+	}
+	if n == 0 {
+		out = append(out, Obligation{Key: "cast expression", Status: Undecided, Detail: "no engine function handles an AnalyzedCastExpression"})
+	}
+	return out
 }
